@@ -7,8 +7,8 @@ from sim import run_scenario
 from .base import Result, V
 from . import simcommon as SC
 
-MODULES = ['TickitModel.Props.C05', 'TickitModel.Props.AnyTransfer']
-THEOREMS = ['initial_tick_complete', 'initial_tick_marks_systems', 'tickLevel_once',
+MODULES = ['TickitModel.Props.C05', 'TickitModel.Props.AnyTransfer', 'TickitModel.Props.C17Partition']
+THEOREMS = ['two_part_division', 'division_hosts_once', 'initial_tick_complete', 'initial_tick_marks_systems', 'tickLevel_once',
             'any_order_initial_tick_complete', 'any_order_tick_one_time']
 ANCHORS = ["src/tickit/core/management/schedulers/master.py", "src/tickit/core/management/schedulers/nested.py",
            "src/tickit/core/components/system_component.py", "src/tickit/core/management/ticker.py"]
